@@ -300,6 +300,18 @@ func runC12(c *Ctx) {
 			return m
 		}), "IncrementProposerPriority", inc)
 		c.Guarded(fn, "IncrementProposerPriority", inc, G("no updates, or UpdateWithChangeSet error == nil", IsNil(`^call:`+vsT+`\.UpdateWithChangeSet\(call:`+vsT+`\.Copy\(state\.NextValidators\), validatorUpdates\)$`), Cmp(`^call:len\(validatorUpdates\)$`, "<=", `^const:0$`)))
+	}
+	validatorSetRoles(c)
+}
+
+// validatorSetRoles: which of the three validator sets of a state judges what. Applying a block shifts them by one
+// (next -> current -> last); the commit of the previous height — in a block, and when it is rebuilt after a restart — is
+// judged by the LAST validators, and consensus works with the state's current and last sets. Shared by C12 (set
+// updates), C01/C02/C03 (a commit verifies against the previous validator set) and C05 (the last commit rebuilt on
+// restart).
+func validatorSetRoles(c *Ctx) {
+	vsT := `\(\*types\.ValidatorSet\)`
+	if fn := c.Fn("kai/state/cstate", "", "updateState"); fn != nil {
 		want := map[string]string{"NextValidators": `^call:` + vsT + `\.Copy\(state\.NextValidators\)$`, "Validators": `^call:` + vsT + `\.Copy\(state\.NextValidators\)$`, "LastValidators": `^call:` + vsT + `\.Copy\(state\.Validators\)$`}
 		got := map[string][]string{}
 		for _, in := range findInstrs(fn, StoreTo(`^&alloc:complit:kai/state/cstate\.LatestBlockState\.`)) {
@@ -311,6 +323,27 @@ func runC12(c *Ctx) {
 		for _, f := range []string{"NextValidators", "Validators", "LastValidators"} {
 			ok := len(got[f]) == 1 && re(want[f]).MatchString(got[f][0])
 			c.Check("F", fnName(fn)+"/new state's "+f+" shifts from the right set", ok, fn.Pos(), 1, strings.Join(got[f], ";"))
+		}
+	}
+	if fn := c.Fn("consensus", "ConsensusState", "reconstructLastCommit"); fn != nil {
+		n := 0
+		for _, in := range findInstrs(fn, CallTo(`^types\.CommitToVoteSet$`, "")) {
+			a := argPaths(callCommon(in))
+			if len(a) == 3 && a[0] == "state.ChainID" && strings.HasSuffix(a[1], ".LoadSeenCommit(cs.blockOperations, state.LastBlockHeight)") && a[2] == "state.LastValidators" {
+				n++
+			}
+		}
+		c.Check("F", fnName(fn)+"/the last commit is rebuilt from the seen commit of the last height against the last validators", n == 1, fn.Pos(), n, "")
+		c.Guarded(fn, "install the rebuilt last commit", StoreTo(`^&cs\.RoundState\.LastCommit$`), G("it has +2/3", True(`^call:\(\*types\.VoteSet\)\.HasTwoThirdsMajority\(call:types\.CommitToVoteSet\(`)))
+	}
+	if fn := c.Fn("consensus", "ConsensusState", "updateToState"); fn != nil {
+		for f, want := range map[string]string{"Validators": "state.Validators", "LastValidators": "state.LastValidators"} {
+			n, okv := 0, true
+			for _, in := range findInstrs(fn, StoreTo(`^&cs\.RoundState\.`+f+`$`)) {
+				n++
+				okv = okv && pathOf(in.(*ssa.Store).Val) == want
+			}
+			c.Check("F", fnName(fn)+"/consensus takes "+f+" from the state's "+f, n == 1 && okv, fn.Pos(), n, "")
 		}
 	}
 }
